@@ -322,3 +322,79 @@ func HarnessC19Gaps4() { c19Gaps(4, 8) }
 func HarnessC19Gaps5() { c19Gaps(5, 8) }
 func HarnessC19Gaps6() { c19Gaps(6, 8) }
 func HarnessC19Gaps7() { c19Gaps(7, 8) }
+
+// ---------------------------------------------------------------------------------------------------- C11
+type numTy struct {
+	name            string
+	bits            int
+	signed, isFloat bool
+	prec            int // significand bits of a float type
+}
+
+var c11Types = []numTy{
+	{"i8", 8, true, false, 0}, {"i16", 16, true, false, 0}, {"i32", 32, true, false, 0}, {"i64", 64, true, false, 0}, {"i128", 128, true, false, 0}, {"i256", 256, true, false, 0},
+	{"u8", 8, false, false, 0}, {"u16", 16, false, false, 0}, {"u32", 32, false, false, 0}, {"u64", 64, false, false, 0}, {"u128", 128, false, false, 0}, {"u256", 256, false, false, 0},
+	{"f32", 32, false, true, 24}, {"f64", 64, false, true, 53}, {"f128", 128, false, true, 113}, {"f256", 256, false, true, 237},
+	{"byte", 8, false, false, 0},
+}
+
+// c11Lossless: can every value of s be represented exactly in t?  (ranges of two's-complement integers; IEEE-style
+// significand widths 24/53/113/237 as the repository documents its own float types)
+func c11Lossless(s, t numTy) bool {
+	switch {
+	case s.isFloat && t.isFloat:
+		return t.prec >= s.prec
+	case s.isFloat:
+		return false
+	case t.isFloat:
+		vb := s.bits
+		if s.signed {
+			vb--
+		}
+		return vb <= t.prec
+	case s.signed && t.signed:
+		return t.bits >= s.bits
+	case !s.signed && !t.signed:
+		return t.bits >= s.bits
+	case !s.signed && t.signed:
+		return t.bits > s.bits
+	default:
+		return false
+	}
+}
+
+var c11Positions = []string{
+	"fn f(v: S) -> T { let r: T = v; return r; }",
+	"fn f(v: S, w: T) -> T { let r: T = w; r = v; return r; }",
+	"fn g(x: T) { }\nfn f(v: S) { g(v); }",
+	"fn f(v: S) -> T { return v; }",
+	"fn f(v: S) -> str ! T { return v; }",
+	"fn f(v: S) -> T ! i32 { return v!; }",
+	"type P struct { .F: T };\nfn f(v: S) -> P { return { .F = v } as P; }",
+	"fn f(v: S) -> T { let a: [2]T = [v, v]; return a[0]; }",
+	"fn f(v: S) -> T? { let r: T? = v; return r; }",
+	"type P struct { .F: T };\nfn f(v: S, p: &'P) { p.F = v; }",
+	"fn f(v: S) -> T { let g := fn(x: S) -> T { return x; }; return g(v); }",
+	"fn f(v: S, w: T) -> T { match 1 { 1 => { w = v; } _ => { } } return w; }",
+}
+
+// c11Positions: for every ordered pair (S, T) of the 17 numeric types and every assignment-like position in the list
+// above, a program that moves a value of type S into a T without a cast is accepted by the real front end only if
+// every value of S is representable in T.
+func c11Run(lo, hi int) {
+	s := c11Types[verifrt.Choice("S", len(c11Types))]
+	t := c11Types[verifrt.Choice("T", len(c11Types))]
+	k := lo + verifrt.Choice("position", hi-lo)
+	src := strings.ReplaceAll(strings.ReplaceAll(c11Positions[k], "S", s.name), "T", t.name) + "\n"
+	o := Run(src)
+	if !c11Lossless(s, t) {
+		verifrt.Assert(!o.Accepted(), "a lossy implicit numeric conversion is accepted")
+	} else if s.name == t.name {
+		verifrt.Assert(o.Accepted(), "CALIBRATION: the identity conversion is rejected: "+o.Messages())
+	}
+}
+
+func HarnessC11Positions0() { c11Run(0, 3) }
+func HarnessC11Positions1() { c11Run(3, 6) }
+func HarnessC11Positions2() { c11Run(6, 9) }
+func HarnessC11Positions3() { c11Run(9, 12) }
